@@ -115,8 +115,13 @@ def _pod_from_match(pod: str, m: RegexMatch) -> str:
     "|(?P<mod_late>(spät(e(r|n|m))?|late)))",
     predicate("isPOD"),
 )
-def ruleEarlyLatePOD(ts: datetime, m: RegexMatch, p: Time) -> Time:
-    return Time(POD=_pod_from_match(p.POD, m))
+def ruleEarlyLatePOD(ts: datetime, m: RegexMatch, p: Time) -> Optional[Time]:
+    pod = _pod_from_match(p.POD, m)
+    if pod not in pod_hours:
+        # modifiers can be stacked without limit in the text ("late very late
+        # evening"), the table of known parts of day cannot
+        return None
+    return Time(POD=pod)
 
 
 _pods = [
